@@ -64,6 +64,7 @@ pub fn parse(file_tree: &SourceTree) -> Result<pr::ModuleDef, Errors> {
 // would be an effort)
 pub(crate) fn parse_source(source: &str, source_id: u16) -> Result<Vec<pr::Stmt>, Vec<Error>> {
     let (tokens, mut errors) = prqlc_parser::lexer::lex_source_recovery(source, source_id);
+    lexer_spans_to_bytes(source, &mut errors);
 
     let ast = if let Some(tokens) = tokens {
         debug::log_entry(|| debug::DebugEntryKind::ReprLr(lr::Tokens(tokens.clone())));
@@ -79,6 +80,21 @@ pub(crate) fn parse_source(source: &str, source_id: u16) -> Result<Vec<pr::Stmt>
         Ok(ast.unwrap_or_default())
     } else {
         Err(errors)
+    }
+}
+
+/// The lexer reports the spans of its errors in characters. Tokens, the AST and
+/// every later stage use byte offsets, and so does error reporting: convert.
+pub(crate) fn lexer_spans_to_bytes(source: &str, errors: &mut [Error]) {
+    let to_byte = |chars: usize| {
+        source
+            .char_indices()
+            .nth(chars)
+            .map_or(source.len(), |(byte, _)| byte)
+    };
+    for span in errors.iter_mut().filter_map(|e| e.span.as_mut()) {
+        span.start = to_byte(span.start);
+        span.end = to_byte(span.end);
     }
 }
 
